@@ -43,7 +43,7 @@ def gen_job(verif_seed, tier, index):
             ff = ffgen.gen_ff(g)
         rg = ffgen.gen_resgraph(g, ff)
         r = g.random()
-        out = g.choice(["out.itp", "out.itp", "other.itp", "sub/out.itp"])
+        out = g.choice(["out.itp", "out.itp", "other.itp", "sub/out.itp", "PEO_1.5k", "sub/polymer", "mol.v2.top"])
         if r < 0.15:
             op = histgen.failing_op(g, ff, rg, out=out)
         elif r < 0.22:
